@@ -18,11 +18,11 @@ PKGDIR=$(grep -o "package directory[^\n]*" "$DEMO" | head -1)
 DEMODEST=${4:-.}
 echo "== without change: demo should pass"
 cp "$DEMO" $DEMODEST/zz_seed_demo_test.go
-(cd $DEMODEST && timeout 600 go test -vet=off -count=1 -run 'Demo|Seed|ZZ' . 2>&1 | tail -3) | tee $SCR/without.txt
+(cd $DEMODEST && timeout 600 go test ${RACE:+-race} -vet=off -count=1 -run 'Demo|Seed|ZZ' . 2>&1 | tail -3) | tee $SCR/without.txt
 echo "== with change"
 git apply $D/patch.diff && echo applied
 go build ./... && echo build-ok
-(cd $DEMODEST && timeout 600 go test -vet=off -count=1 -run 'Demo|Seed|ZZ' . 2>&1 | tail -3) | tee $SCR/with.txt
+(cd $DEMODEST && timeout 600 go test ${RACE:+-race} -vet=off -count=1 -run 'Demo|Seed|ZZ' . 2>&1 | tail -3) | tee $SCR/with.txt
 rm -f $DEMODEST/zz_seed_demo_test.go
 echo "== existing suite with change"
 timeout 1200 go test -vet=off -count=1 ./... 2>&1 | grep -v "no test files" | tail -12 | tee $SCR/suite.txt
